@@ -64,6 +64,34 @@ CLAIMS.update({
     ),
 })
 
+CLAIMS.update({
+    "C02": dict(
+        text="Deductive proof from the real source of the two arithmetic stages of the chain schedule -> byte access pattern -> streamer registers, each as a WHOLE rewrite method through views: LayoutResolution (default, strided and tile-aligned tiled-strided layouts; all integer schedule coefficients/bounds/strides): the extracted unit-response strides reproduce the byte address of every scheduled element on the whole iteration box; ConvertStreamToSnaxStreamPattern for the operands of the registered accelerators (gemmx A/B/D8/D32/C, alu, xdma; concrete iteration bounds, ALL byte strides): the (ub, ts, ss) configuration enumerates in 8-byte words exactly the byte sequence of the scheduled elements (same_nest checker), shipped shapes must not be rejected; StridePattern.canonicalize (C19) and get_affine_map (C10) re-proved as dependencies.",
+        note="Trusted: paper lemma same_nest => same address sequence; xdsl's MemRefType/StridedLayoutAttr.get_affine_map mirrored in the stub; accelerator template/streamer plumbing assumed; hardware broadcast mode excluded. Open findings F06 (strided layouts with offset) and F05 (TSL offset). NOT covered: accelerator-specific set_stride_patterns, dynamic shapes, that the base pointer includes the layout offset.",
+        design_ref="DESIGN.md section 3 C02",
+    ),
+    "C05": dict(
+        text="Deductive proof from the real source: TransformDMA.match_and_rewrite executed as a WHOLE (views of memref.copy with default / strided / tiled-strided layouts, real largest_common_contiguous_block, get_bound_ops, get_step_ops, get_total_size_op; the emitted scf.for nest binds block arguments to run-time symbols so the recorded DMA call's operands are the symbolic transfer family): for every element (witness digits) there are loop indices / a repetition / a burst offset reading it at its source address and writing it at its destination address (offsets and element size included); inside a burst source and destination offsets agree; the burst is exactly the common contiguous block; every loop and the repeat count range over the bound of exactly one (dim, depth). Rank x depth <= 2 for all layout pairs plus 3- and 4-level nests with a single-element block; all steps/bounds/offsets/pointers symbolic. Helper contracts: get_total_size_op, MatchSimpleCopy, extract_strides/extract_offset, and C10's block / bound / step contracts.",
+        note="Trusted: DMA semantics of snax_dma_1d/2d_transfer (runtime/include/snax_rt.h); func/scf/memref stubs; the identification of loop levels by the identity of the recorded bound ops (ghost observation of get_bound_ops/get_step_ops). One defect repaired (F13). NOT covered: dynamic shapes/offsets in TransformDMA, the dynamic-stride equality in the common block (observation).",
+        design_ref="DESIGN.md section 3 C05",
+    ),
+    "C12": dict(
+        text="NARROW: only the compile-time re-layout clause. Deductive proof per shape (all contents) that RemoveTransposeConstants.transpose_tuple, as called, is the row-major transpose; transform_constant (numpy frombuffer/reshape/transpose/argsort) is a bounded stand-in over every dense static layout of an enumerated family (each logical value at the address the new layout prescribes), not counted as proved.",
+        note="Everything about where copies are placed, which memory space values live in and function boundaries (the larger part of the property) is NOT covered: it is IR plumbing of RealizeMemrefCasts / SetMemorySpace.",
+        design_ref="DESIGN.md section 3 C12",
+    ),
+    "C14": dict(
+        text="Deductive proof from the real source: dispatch_to_dm / dispatch_to_compute on views of every op kind (copy, linalg.generic, cluster barrier, other, streaming regions of an xDMA / a compute accelerator with each kernel body; the real XDMA_EXT_SET): never both cores, data movement to the data mover, compute to the compute core, barriers and other ops to neither; DispatchRegionsRewriter.match_and_rewrite as a WHOLE (rules through their contract as symbolic flags; blocks of 1..3 ops, a nested region, two blocks; 2..3 cores): every op is guarded exactly when a rule names a core for it, at most once, by a comparison of the one core-id call with the constant of its core, original order kept inside each guard, pin_to_constants == 0..nb_cores-1.",
+        note="Trusted: the rewriter stub is a recorder (detach/insert are not performed), so the second (compute) walk sees the original structure; relative order ACROSS guards and the function-constant-pinning pass are not covered. One defect repaired (F18, multi-block functions).",
+        design_ref="DESIGN.md section 3 C14",
+    ),
+    "C18": dict(
+        text="Deductive proof from the real source: SupportedKernel.is_same_kernel (iff, symbolic widths), DispatchTemplatePattern (dispatched => some declared kernel matches class AND operand types; fails on the unchanged tree: known finding F03), LowerLinalgBody (only a body of exactly one kernel op is expanded, into that kernel's equivalent region), check_kernel_equivalence in exact bit-vector semantics with SYMBOLIC wiring (accepted => same function of all inputs; fails on the unchanged tree: known finding F04).",
+        note="Trusted: bit-vector denotations of arith ops; builder stub (implicit region). NOT covered: LowerRescale (no in-repo specification of kernel.rescale), convert_tosa_to_kernel, ParseLinalgBody's plumbing.",
+        design_ref="DESIGN.md section 3 C18",
+    ),
+})
+
 _PENDING = "check not built yet in this round (planned in DESIGN.md section 3); not claimed"
 NOT_APPLICABLE = {f"C{i:02d}": _PENDING for i in range(1, 21)}
 NOT_APPLICABLE.update({
